@@ -19,7 +19,8 @@ for id in "$@"; do
 done
 for p in mutants/benign/*.diff; do echo "benign $p $*"; done
 } | xargs -P ${JOBS:-8} -L1 bash -c 'one "$0" "$@"' | sort > $OUT
-grep -v " ok" $OUT
+grep -v " ok" $OUT; for p in mutants/*/*.diff seeded/*/patch.diff; do :; done
+grep -c "exit=3" $OUT >/dev/null && grep "exit=3" $OUT | sed 's/^/STALE (does not apply to the current tree): /'
 echo "regress: $(grep -c ' break .* ok$' $OUT) breaking reported, $(grep -c 'MISSED' $OUT) missed, $(grep -c ' benign .* ok(exit=0)' $OUT) benign silent, $(grep -c ' benign .* ok(exit=2)' $OUT) benign no-verdict, $(grep -c FALSE-ALARM $OUT) false alarms"
 grep 'ok(exit=2)' $OUT
 rm -f $OUT
